@@ -172,11 +172,30 @@ fn run_arr<const N: usize>(s: &BufScn, st: &mut Stats) -> (Option<Violation>, Ve
         }
         if eq_model {
             st.bump("probe", "equal-contents-different-history");
-            for (name, da, db, dm) in [
+            let mut forms: Vec<(&str, String, String, String)> = vec![
                 ("{:?}", format!("{:?}", a), format!("{:?}", b), format!("{:?}", &ma.v[..])),
                 ("{:x?}", format!("{:x?}", a), format!("{:x?}", b), format!("{:x?}", &ma.v[..])),
                 ("{:#?}", format!("{:#?}", a), format!("{:#?}", b), format!("{:#?}", &ma.v[..])),
-            ] {
+            ];
+            if ma.v.len() <= 300 {
+                // every formatter parameter a caller can pass: precision, width, fill and alignment,
+                // sign, zero padding, upper-case hex, combinations (short contents only: a
+                // 70 000-byte buffer printed 14 ways per step is all cost)
+                forms.extend([
+                    ("{:.0?}", format!("{:.0?}", a), format!("{:.0?}", b), String::new()),
+                    ("{:.3?}", format!("{:.3?}", a), format!("{:.3?}", b), String::new()),
+                    ("{:.300?}", format!("{:.300?}", a), format!("{:.300?}", b), String::new()),
+                    ("{:12.5?}", format!("{:12.5?}", a), format!("{:12.5?}", b), String::new()),
+                    ("{:*<9?}", format!("{:*<9?}", a), format!("{:*<9?}", b), String::new()),
+                    ("{:>1?}", format!("{:>1?}", a), format!("{:>1?}", b), String::new()),
+                    ("{:+?}", format!("{:+?}", a), format!("{:+?}", b), String::new()),
+                    ("{:04?}", format!("{:04?}", a), format!("{:04?}", b), String::new()),
+                    ("{:X?}", format!("{:X?}", a), format!("{:X?}", b), String::new()),
+                    ("{:#06x?}", format!("{:#06x?}", a), format!("{:#06x?}", b), String::new()),
+                    ("{:#.65535?}", format!("{:#.65535?}", a), format!("{:#.65535?}", b), String::new()),
+                ]);
+            }
+            for (name, da, db, dm) in forms {
                 let _ = dm;
                 if da != db {
                     return (
@@ -322,7 +341,7 @@ impl Prop for C18Prop {
         }
     }
     fn rule(&self) -> &'static str {
-        "operation histories of 1-40 steps over {push, extend_from_slice (lengths free-1, free, free+1, 0, random), truncate (k < len, = len, > len, usize::MAX, multiples of 2^8 / 2^16 / 2^32 plus a small remainder), clear, from_iter (<= N items)} on two ArrayBuf<N> (N in 0,1,2,3,4,5,7,8,16,64,256,300,1024 and, rarely, 70000 with slices around 2^16) checked step by step against a capacity-bounded Vec model, with ==, {:?}, {:x?}, {:#?} compared between the two buffers whenever their contents are equal (different histories leave different stale bytes behind the length); Vec<u8> as Buffer runs the same histories with the k-th allocation failing. Non-trivial = at least one operation hit the capacity limit or an allocation failure; distinct = scenario fingerprint"
+        "operation histories of 1-40 steps over {push, extend_from_slice (lengths free-1, free, free+1, 0, random), truncate (k < len, = len, > len, usize::MAX, multiples of 2^8 / 2^16 / 2^32 plus a small remainder), clear, from_iter (<= N items)} on two ArrayBuf<N> (N in 0,1,2,3,4,5,7,8,16,64,256,300,1024 and, rarely, 70000 with slices around 2^16) checked step by step against a capacity-bounded Vec model, with ==, {:?}, {:x?}, {:#?} and eleven further format specifications (precision, width, fill, sign, zero padding, upper-case hex) compared between the two buffers whenever their contents are equal (different histories leave different stale bytes behind the length); Vec<u8> as Buffer runs the same histories with the k-th allocation failing. Non-trivial = at least one operation hit the capacity limit or an allocation failure; distinct = scenario fingerprint"
     }
     fn assumptions(&self) -> Vec<&'static str> {
         vec!["from_iter is driven with at most N items (overflow panics by documented design, test_from_panic)"]
